@@ -295,6 +295,103 @@ def partial_clone_case(chk, sz, scratch, rng):
     shutil.rmtree(d, ignore_errors=True)
 
 
+def long_history_model(rng, n, extra_refs=0):
+    """A chain of n commits over a handful of shared trees; the maxima sit in old commits that only their own branch or tag
+    names directly (so the footnotes depend on matching old commits to trees and references)."""
+    pool = G.Pool(rng)
+    shared = [G.Tree([G.Entry(G.FILE, b"f%d" % k, pool.new_blob(5 + k))]) for k in range(5)]
+    bigblob = G.Blob(b"B" * 70000)
+    deep = G.Tree([G.Entry(G.FILE, b"leaf-with-a-long-name-" + b"x" * 40, pool.new_blob(3))])
+    for k in range(12):
+        deep = G.Tree([G.Entry(G.TREE, b"d%d" % k, deep)])
+    wide = G.Tree([G.Entry(G.FILE, b"w%04d" % k, pool.new_blob(2)) for k in range(300)])
+    special = {0: G.Tree([G.Entry(G.FILE, b"big.bin", bigblob)]),
+               n // 4: G.Tree([G.Entry(G.TREE, b"deep", deep)]),
+               n // 2: G.Tree([G.Entry(G.TREE, b"wide", wide), G.Entry(G.FILE, b"x", pool.new_blob(4))])}
+    m = G.Model()
+    prev = None
+    marks = {}
+    for i in range(n):
+        prev = G.Commit(special.get(i, shared[i % len(shared)]), [prev] if prev else [], cts=1400000000 + i * 60,
+                        msg=b"c%d\n" % i if i != n // 3 else b"long message " * 900 + b"\n")
+        if i in special or i == n // 3:
+            marks[i] = prev
+    m.refs["refs/heads/old"] = marks[0]
+    m.refs["refs/heads/quarter"] = marks[n // 4]
+    m.refs["refs/tags/half"] = G.Tag(marks[n // 2], name=b"half")
+    m.refs["refs/remotes/origin/third"] = marks[n // 3]
+    m.refs["refs/heads/main"] = prev
+    # very many references: the listing of references is then consumed in several pieces
+    c = prev
+    chain = []
+    while c is not None and len(chain) < 4000:
+        chain.append(c)
+        c = c.parents[0] if c.parents else None
+    for i in range(extra_refs):
+        m.refs["refs/%s/many/%05d" % (("heads", "tags", "remotes/origin")[i % 3], i)] = chain[(i * 7919) % len(chain)]
+    m.meta = {"n": n}
+    return m
+
+
+def long_history_case(chk, sz, szr, scratch, rng, n, nruns, extra_refs=0):
+    """Determinism on a long history: thresholds on the number of commits switch code paths that small repositories never take."""
+    d = os.path.join(scratch, "longhist-%d-%d" % (n, extra_refs))
+    os.makedirs(d)
+    label = "long-history" if not extra_refs else "many-references"
+    try:
+        gitdir = G.write_model(long_history_model(rng, n, extra_refs), os.path.join(d, "long.git"), packed_refs=True)
+        subprocess.run([G.REAL_GIT, "--git-dir", gitdir, "repack", "-adq"], env=G.git_env(), stdout=-1, stderr=-1)
+        base = {}
+        formats = [["-v"], ["--json"], ["--json", "--json-version=2"]]
+        if extra_refs:
+            formats = [["-v", "--show-refs"], ["--json"], ["--json", "--json-version=2", "--show-refs"]]
+        for fa in formats:
+            r = R.sizer(sz, gitdir, fa + ["--no-progress"], tmpdir=d, timeout=300)
+            chk.count()
+            if r.rc != 0:
+                chk.violation("C17/%s/run-failed" % label, {"argv": fa, "stderr": r.err[-300:]})
+                return
+            base[tuple(fa)] = r.out
+        logdir = os.path.join(d, "race")
+        os.makedirs(logdir)
+        differing = 0
+        for k in range(nruns):
+            fa = formats[0] if k % 3 != 2 else formats[1 + (k // 3) % 2]
+            gmp = [16, 1, 4, 2, 8, 3][k % 6]
+            binary = szr if (k % 4 == 3 or (extra_refs and k % 2)) else sz
+            argv = fa + [rng.choice(["--no-progress", "--no-progress", "--progress"])]
+            cmd = [binary] + argv
+            if k % 5 == 4:
+                cmd = ["taskset", "-c", rng.choice(["0", "1,2"])] + cmd
+            e = R.base_env({"GOMAXPROCS": str(gmp), "GORACE": "halt_on_error=0 log_path=%s/race" % logdir})
+            r = R.run_proc(cmd, gitdir, e, timeout=600, tmpdir=d)
+            chk.count()
+            chk.bump("long_history_runs")
+            if r.timed_out:
+                chk.inconc("watchdog fired in a long-history run")
+                continue
+            if r.rc != 0 and not (r.rc == 66 or b"DATA RACE" in r.err):
+                chk.violation("C17/%s/run-failed" % label, {"argv": argv, "rc": r.rc, "stderr": r.err[-300:], "gomaxprocs": gmp})
+                continue
+            if r.out != base[tuple(fa)]:
+                differing += 1
+                chk.violation("C17/determinism/stdout-differs-from-reference-run/" + label,
+                              {"argv": argv, "gomaxprocs": gmp, "commits": n, "extra_refs": extra_refs, "race_build": binary == szr,
+                               "first_diff": [x.decode("utf-8", "replace") for x in _first_diff(base[tuple(fa)], r.out)]})
+        seen = set()
+        for blk in race_blocks(logdir):
+            sig = race_sig(blk)
+            chk.bump("race_reports")
+            if sig not in seen:
+                seen.add(sig)
+                chk.violation("C17/data-race/" + sig, {"report": blk[:3000], "case": label})
+        chk.cov.setdefault("long_history_cases", []).append({"commits": n, "references": 5 + extra_refs, "runs": nruns,
+                                                             "runs_differing_from_reference": differing})
+        chk.nontrivial((label, n))
+    finally:
+        shutil.rmtree(d, ignore_errors=True)
+
+
 def run(chk, b, tier):
     sz = b.sizer()
     szr = b.sizer(race=True)
@@ -322,6 +419,9 @@ def run(chk, b, tier):
             chk.sample(r["sample"], limit=3)
             chk.nontrivial(("repo", i))
     partial_clone_case(chk, sz, scratch, random.Random("C17p|%d" % R.SEED))
+    for n_, k_, xr in ([(30000, 12, 0), (3000, 8, 6500)] if tier == "quick" else
+                       [(30000, 24, 0), (120000, 24, 0), (400000, 12, 0), (3000, 40, 6500), (500, 40, 2100), (25000, 20, 30000)]):
+        long_history_case(chk, sz, szr, scratch, random.Random("C17l|%d|%d" % (R.SEED, n_)), n_, k_, extra_refs=xr)
     for o in orderings:
         chk.nontrivial(("ordering", o))
     chk.cov["distinct_child_event_orderings_observed"] = len(orderings)
@@ -335,6 +435,9 @@ def run(chk, b, tier):
                        "even if it failed or was undone; (3) N runs of the -race build with GOMAXPROCS in {1,2,3,8,16}, taskset, "
                        "and the shim delaying/chunking rev-list, cat-file and for-each-ref with seeded plans: stdout byte-identical "
                        "to the plain build's for JSON v1, v2, table, +-progress; race detector log must be empty. Distinct = "
-                       "repositories + distinct orderings of the children's first-output/eof/exit events seen by the shim.")
+                       "repositories + distinct orderings of the children's first-output/eof/exit events seen by the shim. (4) long linear "
+                       "histories (30k commits; thorough also 120k and 400k) whose maxima sit in old commits named only by their own "
+                       "branch/tag, and repositories with thousands of references (+--show-refs): repeated runs of both builds with "
+                       "GOMAXPROCS 1..16 and taskset must print identical bytes and leave the race log empty.")
     chk.assumptions += ["the Go race detector treats write(2)->read(2) through the git children as happens-before: races ordered only "
                         "through the external process are invisible", "schedules are sampled, not enumerated"]
